@@ -116,29 +116,24 @@ def C27_full : Prop :=
     (final c acts).quiescent = true →
     accounted (final c acts).log (final c acts).delivered (final c acts).dead = true
 
-/-- Witness (finding C27-F1, close): maxBatch = 1; thread 0 gets two messages accepted while the
-    writer has not run yet; `close`; the writer's select picks `done`, drainReady takes ONE message
-    (maxBatch), flush succeeds, the goroutine returns.  Message (0,1) stays in the channel for
-    ever: not delivered, not dead-lettered, and its sender was told `nil`. -/
+/-- Regression (fixed C27-F1, fix 305110c): maxBatch = 1; thread 0 gets two messages accepted while
+    the writer has not run yet; `close`; the writer's select picks `done`, drains and flushes ONE
+    message, and — since the fix — goes round again until the channel is empty.  Before the fix the
+    goroutine returned after the first batch and message (0,1) stayed in the channel for ever. -/
 def witnessClose : List Act :=
   [.begin (0, 0), .sub 0 0, .sub 0 0, .begin (0, 1), .sub 0 0, .sub 0 0,
-   .close, .wstep 0 true, .wstep 0 true, .wstep 0 true, .wstep 0 true]
+   .close, .wstep 0 true, .wstep 0 true, .wstep 0 true, .wstep 0 true,
+   .wstep 0 true, .wstep 0 true, .wstep 0 true, .wstep 0 true, .wstep 0 true]
 
 def cfg1 : Cfg := { maxBatch := 1, hasHandler := true, fqCap := 256 }
 
 theorem witnessClose_facts :
     (final cfg1 witnessClose).quiescent = true ∧
     (final cfg1 witnessClose).results = [((0, 0), .ok), ((0, 1), .ok)] ∧
-    (final cfg1 witnessClose).delivered = [(0, 0)] ∧ (final cfg1 witnessClose).dead = [] ∧
-    (final cfg1 witnessClose).chan = [(0, 1)] ∧ (final cfg1 witnessClose).wpc = .exited := by decide
+    (final cfg1 witnessClose).delivered = [(0, 0), (0, 1)] ∧
+    (final cfg1 witnessClose).chan = [] ∧ (final cfg1 witnessClose).wpc = .exited := by decide
 
-theorem C27_refuted : ¬ C27_full := by
-  intro h
-  have := h.2 cfg1 witnessClose rfl (by decide) (by decide) (by decide)
-  revert this
-  decide
-
-/-- Witness (finding C27-F1, submit racing close): the sender passes the `done` pre-check, then
+/-- Witness (finding C27-F3, submit racing close): the sender passes the `done` pre-check, then
     `close` runs and the writer exits on an empty channel, then the sender's try-send succeeds:
     `submit` returns nil for a message nobody will ever read. -/
 def witnessRace : List Act :=
@@ -148,6 +143,12 @@ theorem witnessRace_facts :
     (final cfg1 witnessRace).quiescent = true ∧ (final cfg1 witnessRace).results = [((0, 0), .ok)] ∧
     (final cfg1 witnessRace).flushed = [] ∧ (final cfg1 witnessRace).chan = [(0, 0)] ∧
     accounted (final cfg1 witnessRace).log (final cfg1 witnessRace).delivered (final cfg1 witnessRace).dead = false := by
+  decide
+
+theorem C27_refuted : ¬ C27_full := by
+  intro h
+  have := h.2 cfg1 witnessRace rfl (by decide) (by decide) (by decide)
+  revert this
   decide
 
 /-- Witness (finding C27-F2, fan-out queue full; queue size 1 for brevity): two single-message
